@@ -275,3 +275,9 @@ Definition final_byte (c : cfg) (kept : Z) (sched : list wop) (b : Z) : option f
 (* length of the final file: kept bytes, extended by the writes *)
 Definition final_length (c : cfg) (kept : Z) : Z :=
   Z.max kept (c_offset c + (c_ns c + c_ns2add c) * rowbytes c).
+
+(* ---- whitening --------------------------------------------------------------- *)
+(* if wrot is not None: chunk[:, :ncv] = np.dot(chunk[:, :ncv], wrot)
+   whatever form wrot has (matrix, Python float, NumPy scalar, 0-d array), only the ncv voltage
+   columns are multiplied; the re-attached sync columns (col >= ncv) are not. *)
+Definition whitened_column (c : cfg) (col : Z) : bool := (0 <=? col) && (col <? c_ncv c).
